@@ -8,7 +8,8 @@ using Tins::Memory::OutputMemoryStream;
 
 namespace Tins {
 
-VXLAN::VXLAN(const small_uint<24> vni) {
+VXLAN::VXLAN(const small_uint<24> vni)
+: header_() {
     set_flags(8);
     set_vni(vni);
 }
